@@ -11,6 +11,7 @@ var mutDict = []string{
 	"/re/g", "/[/]/v", "null", "true", "a", "b", "x", "\\u0061", "\\u{61}sync", "import", "export", "default", "from", "as", "with", "import.meta", "new.target",
 	"var", "const", "using", "for", "while", "do", "if", "else", "return", "break", "continue", "throw", "try", "catch", "finally", "switch", "case", "debugger", "label:",
 	"\n", "\r\n", "\u2028", "/*c*/", "//c\n", "/*\n*/", "++", "--", "!", "~", "-", "+", "=", "==", "===", "<", ">", "<<", ">>", ">>>", "&", "|", "^", "&&", "||", "%", "*",
+	"linear-gradient(red, 50%,)", "radial-gradient(red, 50%, blue 10px)", "conic-gradient(from 1turn, red 10deg, 30deg, blue)", "color-mix(in srgb, red 50%, blue)", "oklch(50% 0.2 120 / 50%)", "calc(1px + (2 * 3%))", "@layer a, b;", "@media (width >= 1px)", "&:is(.a, .b)", "@container (min-width: 1px)", "!important", "url(x.png)", "var(--x, 1px)",
 	"accessor", "enum", "interface", "implements", "package", "private", "protected", "public", "constructor", "prototype", "__proto__", "\"use strict\"",
 }
 
